@@ -203,6 +203,25 @@ pub fn run_sinks(a: &Args) {
             std::process::exit(2);
         }
     }
+    // a writer positioned beyond 64 KiB (a message appended to a large buffer): offsets are message-relative whatever the
+    // position; the event carries only the tail of the storage (the prefix is checked to be untouched here)
+    for start in [65536usize, 70001] {
+        let pkt = big_recipe(200, 0);
+        if let Ok(p) = construct_packet(&pkt) {
+            if let Ok(reference) = p.build_bytes_vec_compressed() {
+                let prefill: Vec<u8> = (0..start).map(|i| (i % 251) as u8).collect();
+                let mut c = Cursor::new(prefill.clone());
+                c.set_position(start as u64);
+                let o = write_into(&p, true, &mut c);
+                let after = c.get_ref();
+                let untouched = after.len() >= start && after[..start] == prefill[..];
+                st.case((start, "far"), true);
+                out.emit(json!({"ev": "SinkBuild", "cls": "sink vec-cursor comp start=far cap=growable prefill=none", "kind": "vec-cursor-far", "mode": "comp",
+                    "start": 0, "cap": -1, "prefill": [], "ref": bytes_json(&reference), "out": if untouched { o } else { json!(["err", "prefix modified"]) },
+                    "after": bytes_json(&after[start.min(after.len())..])}));
+            }
+        }
+    }
     // a couple of hand-made packets so that tiny and name-sharing cases are always present
     for p in [big_recipe(200, 0), json!({"id": 1, "fs": 0, "opcode": 0, "rcode": 0, "opt": [], "qd": [], "an": [], "ns": [], "ar": []})] {
         sink_events(&mut out, &mut st, &p, true).unwrap();
